@@ -6,8 +6,8 @@ import ast
 import z3
 
 from .state import State, Raise, Exc
-from .vals import (V, Val, SeqVal, IntS, RealS, BoolS, StrS, NONE, Unsupported, box, const, fresh, truthy, unbox_as,
-                   vany, vbool, vbytes, vint, vreal, vref, vstr, vtuple, TESTER)
+from .vals import (V, Val, SeqVal, IntS, RealS, BoolS, StrS, NONE, Unsupported, box, const, fresh, fresh_name, truthy,
+                   unbox_as, vany, vbool, vbytes, vint, vreal, vref, vstr, vtuple, TESTER)
 
 # ---------------------------------------------------------------------------------------------------------------
 # uninterpreted functions for library behaviour that is axiomatised (trusted)
@@ -563,6 +563,10 @@ def iter_seq(ex, st: State, it: V):
         st.assume(z3.Length(seq) == n)
         st.assume(z3.ForAll([j], z3.Implies(z3.And(j >= 0, j < n), z3.Select(dom, seq[j]))))
         st.assume(z3.ForAll([j, j2], z3.Implies(z3.And(j >= 0, j < j2, j2 < n), seq[j] != seq[j2])))
+        xm = z3.Const('x!it', Val)
+        idx_of = z3.Function(fresh_name('idx_of'), Val, IntS)   # skolem function: position of each member
+        st.assume(z3.ForAll([xm], z3.Implies(z3.Select(dom, xm), z3.And(idx_of(xm) >= 0, idx_of(xm) < n,
+                                                                       seq[idx_of(xm)] == xm))))
         if mode == 'values':
             return seq, n, (lambda s, k: vany(z3.Select(dvals, seq[k])))
         if mode == 'items':
@@ -584,6 +588,8 @@ def comprehension(ex, st: State, node):
         items = concrete_items(ex, s, it)
         if items is None:
             r = map_comprehension(ex, s, it, node, gen)
+            if r is None:
+                r = filter_comprehension(ex, s, it, node, gen)
             if r is None:
                 raise Unsupported('comprehension over symbolic-length iterable')
             outs.append((s, r))
@@ -666,6 +672,62 @@ def map_comprehension(ex, st: State, it: V, node, gen):
     st.assume(z3.Length(rs) == z3.Length(seq))
     st.assume(z3.ForAll([j], z3.Implies(z3.And(j >= 0, j < z3.Length(seq)), rs[j] == mf[fname](seq[j]))))
     st.set_list_seq(r, rs)
+    return r
+
+
+def filter_comprehension(ex, st: State, it: V, node, gen):
+    """[x for x in seq if cond(x)] over a symbolic sequence: the result is characterised by membership
+    (every member passed the condition; every passing element is a member); order is not modelled."""
+    if not isinstance(node, ast.ListComp) or not isinstance(gen.target, ast.Name) or not gen.ifs:
+        return None
+    if not (isinstance(node.elt, ast.Name) and node.elt.id == gen.target.id):
+        return None
+    seq, n, elem = iter_seq(ex, st, it)
+    if n is None:
+        return None
+    qi = fresh(IntS, 'fi')
+    body = st.fork()
+    body.assume(z3.And(qi >= 0, qi < n))
+    base = len(body.pc)
+    item = elem(body, qi)
+    body.locals = dict(body.locals)
+    body.locals[gen.target.id] = item
+    conds = [(body, z3.BoolVal(True))]
+    for cnode in gen.ifs:
+        nxt = []
+        for s2, acc in conds:
+            for s3, c in ex.ev_cond(cnode, s2):
+                if isinstance(c, Raise):
+                    if ex.feasible(s3):
+                        raise Unsupported('comprehension condition may raise')
+                    continue
+                nxt.append((s3, z3.And(acc, c)))
+        conds = nxt
+    disj = []
+    for s3, c in conds:
+        extra = z3.And(*s3.pc[base:]) if len(s3.pc) > base else z3.BoolVal(True)
+        disj.append(z3.And(extra, c))
+    cexpr = z3.Or(*disj) if disj else z3.BoolVal(False)
+    item_e = st.box(item)
+
+    def cond_at(k):
+        return z3.substitute(cexpr, (qi, k))
+
+    def item_at(k):
+        return z3.substitute(item_e, (qi, k))
+    r = st.alloc('list')
+    rs = fresh(SeqVal, 'filtered')
+    j, i = z3.Int('j!flt'), z3.Int('i!flt')
+    st.assume(z3.And(z3.Length(rs) >= 0, z3.Length(rs) <= n))
+    src_of = z3.Function(fresh_name('src_of'), IntS, IntS)    # skolem: source index of each result element
+    pos_of = z3.Function(fresh_name('pos_of'), IntS, IntS)    # skolem: result index of each passing element
+    st.assume(z3.ForAll([j], z3.Implies(z3.And(j >= 0, j < z3.Length(rs)), z3.And(
+        src_of(j) >= 0, src_of(j) < n, rs[j] == item_at(src_of(j)), cond_at(src_of(j))))))
+    st.assume(z3.ForAll([i], z3.Implies(z3.And(i >= 0, i < n, cond_at(i)), z3.And(
+        pos_of(i) >= 0, pos_of(i) < z3.Length(rs), rs[pos_of(i)] == item_at(i)))))
+    st.set_list_seq(r, rs)
+    ex.ctx.assumptions.add('filter comprehensions over symbolic collections are modelled by membership only '
+                           '(element order and multiplicity are not modelled)')
     return r
 
 
